@@ -34,6 +34,21 @@ CHECKS = {
                 note='reference grammar G_proc (vf/refsplit.py) trusted; Theta alphabet computed from the real lexer each run'),
 }
 
+CHECKS.update({
+    'C02': dict(level=MC, engine='E2 py2smt + E3 CrossHair', design='3/C02',
+                technique='compositional: SMT obligations on the AST-translated splitter (token conservation) + CrossHair symbolic execution of the real TokenList.group_tokens as ONE inductive step over arbitrary small trees + static frame condition from the AST of grouping.py + CrossHair over parse() on lexeme choices',
+                text='z3 shows the translated splitter appends every token exactly once and drops only an all-whitespace tail; CrossHair confirms over all paths that group_tokens (the only tree mutator the grouping passes use, per the AST scan) preserves the flattened leaf sequence and str() of every node for every tree <= 3/4 leaves and every legal argument; end-to-end harness over parse() confirms the round trip on every script of the lexeme bound.',
+                note='inductive step covers trees of any history only if the frame condition holds (checked each run); leaf values concrete'),
+    'C03': dict(level=MC, engine='E3 CrossHair', design='3/C03',
+                technique='CrossHair symbolic execution of the real group_tokens step and of the navigation helpers (symbolic sibling kinds, indices, flags, leaf lengths, unbounded offset) + parse() over lexeme choices',
+                text='CrossHair confirms over all paths: group_tokens leaves parents/non-empty groups/cached values intact; get_token_at_offset (unbounded symbolic offset, symbolic leaf lengths), token_next/prev/first/index (every index, skip_ws/skip_cm combination, comment tokens and Comment groups) and within/has_ancestor/is_child_of agree with the structure; every parsed tree of the lexeme bound has exactly the lexer tokens as leaves.',
+                note='bounds in evidence; frame condition (only the Operator re-typing store) checked statically each run'),
+    'C07': dict(level=EX, engine='E3 CrossHair', design='3/C07',
+                technique='CrossHair symbolic execution of the real validate_options/format with a symbolic option value (None|bool|int|str|list) against an independent validity predicate; CrossHair over every entry point x 14 option sets x all accessors on lexeme choices',
+                text='option validation is decided for every value of the stated types (solver-explored); the totality claim over texts is only explored: every script of <= 2/3 lexemes from 16/24 (incl. malformed ones). Two genuine defects were fixed in /repo, two are listed as known findings (suppressed only after re-confirmation on their example).',
+                note='weakest claim of the set: arbitrary text beyond 3 lexemes, option combinations beyond the 14 sets and deep recursion are outside'),
+})
+
 NOT_YET = {}
 
 NA = {
